@@ -106,7 +106,12 @@ fn one_case(ctx: &Ctx, case: u64, l: &mut Local) {
     let mut r = Rng::for_case(ctx.seed, STREAM, case);
     let cfg = Config::from_index(case * 5 + 1);
     let fmt = cfg.fmt;
-    let s = pipeline::gen_scenario(ctx, &mut r, cfg.clone());
+    let mut s = pipeline::gen_scenario(ctx, &mut r, cfg.clone());
+    // nested members that merely share their names with the temporal claims are ordinary claims:
+    // whatever they say must not move the credential's own window (they are selected below)
+    let t_gen = api::now();
+    s.u["membership#0;"] = json!({"exp": t_gen - 5 * YEAR, "nbf": t_gen + 5 * YEAR, "iat": t_gen + YEAR, "level": [{"exp": 1, "nbf": 4_000_000_000u64}]});
+    s.strat = crate::gen::gen_strategy(&mut r, &s.u, cfg.strat);
     let issued = match pipeline::issue_scenario(&s) {
         Ok(i) => i,
         Err(_) => {
@@ -124,6 +129,7 @@ fn one_case(ctx: &Ctx, case: u64, l: &mut Local) {
         o.remove("exp");
         o.remove("nbf");
         o.remove("iat");
+        o.insert("membership#0;".into(), json!({"exp": true, "nbf": true, "iat": true, "level": [{"exp": true, "nbf": true}]}));
     }
     let resolver = Resolver::Fixed(cfg.alg, 0);
     l.sample(case, || json!({"config": cfg.describe(), "payload_members": base.keys().collect::<Vec<_>>(), "t": t0}));
